@@ -101,7 +101,7 @@ func c17Lattice(ctx *core.Ctx) {
 						ctx.Count("explicit=" + ex.tag)
 						ctx.Count("cpn=" + strings.SplitN(cp.tag, ":", 2)[0])
 						ctx.Count("files=" + fs.tag)
-						ctx.Add("c17load", a)
+						ctx.Add("c17load", a.wire())
 					}
 				}
 			}
@@ -152,7 +152,7 @@ func c17Lattice(ctx *core.Ctx) {
 				}
 				ctx.Count("lattice-env")
 				ctx.Count(fmt.Sprintf("env-subset=%04b", mask))
-				ctx.Add("c17load", a)
+				ctx.Add("c17load", a.wire())
 			}
 		}
 	}
@@ -196,7 +196,7 @@ func c17WorkdirLattice(ctx *core.Ctx) {
 						}
 						ctx.Count("lattice-workdir")
 						ctx.Count("workdir=" + mode)
-						ctx.Add("c17load", a)
+						ctx.Add("c17load", a.wire())
 					}
 				}
 			}
@@ -480,15 +480,15 @@ func runC17(ctx *core.Ctx) {
 	// 2. seeded random worlds: documented order (spec oracle applies), then any order (model correspondence + invariants)
 	for i := 0; i < ctx.Pick(6000, 150000); i++ {
 		ctx.Count("random-documented-order")
-		ctx.Add("c17load", c17Random(ctx.Rng, true, false))
+		ctx.Add("c17load", c17Random(ctx.Rng, true, false).wire())
 	}
 	for i := 0; i < ctx.Pick(4000, 100000); i++ {
 		ctx.Count("random-any-order")
-		ctx.Add("c17load", c17Random(ctx.Rng, false, false))
+		ctx.Add("c17load", c17Random(ctx.Rng, false, false).wire())
 	}
 	// 3. malformed stream
 	for i := 0; i < ctx.Pick(2500, 50000); i++ {
 		ctx.Count("malformed")
-		ctx.Add("c17load", c17Random(ctx.Rng, ctx.Rng.Intn(2) == 0, true))
+		ctx.Add("c17load", c17Random(ctx.Rng, ctx.Rng.Intn(2) == 0, true).wire())
 	}
 }
